@@ -115,7 +115,7 @@ def r_call(r, maxul, invalid=None):
     elif invalid == "dir":
         g["dir"] = r.choice(["up", "", "Left_to_right"])
     elif invalid == "excl":
-        g["excl"] = [d1, d2 + r.randint(1, 9)] if r.random() < 0.5 else [max(0, d1 - 1)]
+        g["excl"] = r.choice([[d1, d2 + r.randint(1, 9)], [max(0, d1 - 1)], [d1 + 0.5], [d1, d1 + 0.25] if d2 > d1 else [d1 + 0.5]])
     return {"op": "emit", "fn": "reagent_distribution", "args": g}
 
 
@@ -123,7 +123,7 @@ def simple_call(r, diti, invalid=False):
     k = r.choice(["comment", "wash", "decontaminate", "flush", "commit", "set_diti", "wash", "comment"])
     if k == "comment":
         if invalid:
-            return {"op": "emit", "fn": "comment", "args": {"text": text(r, 30, sep=True)}}
+            return {"op": "emit", "fn": "comment", "args": {"text": r.choice([text(r, 30, sep=True), "first line\nsecond; line", "a\n\nb\nc;", "ok\n;"])}}
         return {"op": "emit", "fn": "comment", "args": {"text": r.choice([None, "", "hello", " padded  ", "two\nlines", "a\n\n b \n", "µL transfer", text(r, 40),
                                                                           "\n", "  \n x"])}}
     if k == "wash":
